@@ -1,6 +1,7 @@
 package main
 
 import (
+	"fmt"
 	"strings"
 
 	"golang.org/x/tools/go/ssa"
@@ -88,6 +89,7 @@ func checkC07(c *Ctx, p *Prog, r *Result) {
 	f := NewFlow(p, rs, []*ssa.Function{root}, nil)
 	r.useFlow(f)
 	dumpFlow(f)
+	c07RegistrationExpiry(p, r)
 
 	rule := "C07.redirect-guarded"
 	r.rule(rule, "in the region of (*TO1Server).Respond, every success return of a function whose first result is a To1d blob requires {nonce-read, nonce-eq, ueid-len-ok, ueid-type-ok, blob-read, devkey-ok, eat-sig-ok}")
@@ -177,4 +179,126 @@ func sqliteExpiryRules(p *Prog, r *Result, rs *RuleSet, prefix string) {
 	pair := map[string]string{"time.Time.Unix": "time.Unix", "time.Time.UnixMilli": "time.UnixMilli", "time.Time.UnixMicro": "time.UnixMicro"}
 	r.table(p, prefix+".sqlite-expiry-units", "fdo/sqlite.DB.SetRVBlob exp <-> fdo/sqlite.DB.RVBlob", p.Pos(set.Pos()), writer != "" && pair[writer] == reader,
 		"writer conversion "+writer+", reader conversion "+reader)
+}
+
+// c07RegistrationExpiry: every caller of SetRVBlob in the root package that
+// computes the expiry from a configured/negotiated duration stores
+// time.Now().Add(duration) when that duration is positive — any further date
+// arithmetic (the "never expires" default) is confined to the non-positive
+// case. Decided per incoming edge of the expiry value: on an edge whose state
+// holds the lower-bound fact for the duration, the value's backward slice
+// contains time.Time.Add of that duration and no time.Time.AddDate.
+func c07RegistrationExpiry(p *Prog, r *Result) {
+	rule := "C07.registration-expiry"
+	r.rule(rule, "where the expiry handed to SetRVBlob is computed from a duration, the value stored for a positive duration is time.Now().Add(duration) with no further date arithmetic (a default such as 'plus 30 years' applies only when the duration is not positive), so TO1 stops releasing the redirect when the registration lapses")
+	r.floor(rule, 2)
+	var sites []ssa.CallInstruction
+	for _, fn := range p.Funcs {
+		if funcPkgPath(fn) != modulePath {
+			continue
+		}
+		for _, b := range fn.Blocks {
+			for _, in := range b.Instrs {
+				if call, ok := in.(ssa.CallInstruction); ok && call.Common().IsInvoke() && call.Common().Method.Name() == "SetRVBlob" {
+					sites = append(sites, call)
+				}
+			}
+		}
+	}
+	for _, call := range sites {
+		fn := call.Parent()
+		if funcPkgPath(fn) != modulePath {
+			continue
+		}
+		args := allArgs(call)
+		exp := args[len(args)-1]
+		g := fn
+		f := NewFlow(p, e3Rules(p), []*ssa.Function{g}, func(h *ssa.Function) bool { return h != g })
+		// slice helpers
+		var adds func(v ssa.Value, depth int, seen map[ssa.Value]bool) (durs []ssa.Value, addDate bool)
+		adds = func(v ssa.Value, depth int, seen map[ssa.Value]bool) ([]ssa.Value, bool) {
+			if depth > 8 || seen[v] {
+				return nil, false
+			}
+			seen[v] = true
+			var durs []ssa.Value
+			ad := false
+			switch x := v.(type) {
+			case *ssa.Call:
+				n := p.calleeOf(x.Common()).Name
+				switch n {
+				case "time.Time.Add":
+					durs = append(durs, x.Common().Args[1])
+				case "time.Time.AddDate":
+					ad = true
+				}
+				if strings.HasPrefix(n, "time.Time.") {
+					d2, a2 := adds(x.Common().Args[0], depth+1, seen)
+					durs, ad = append(durs, d2...), ad || a2
+				}
+			case *ssa.Phi:
+				for _, e := range x.Edges {
+					d2, a2 := adds(e, depth+1, seen)
+					durs, ad = append(durs, d2...), ad || a2
+				}
+			case *ssa.UnOp:
+				if al, ok := x.X.(*ssa.Alloc); ok {
+					for _, ref := range *al.Referrers() {
+						if st, ok := ref.(*ssa.Store); ok && st.Addr == al {
+							d2, a2 := adds(st.Val, depth+1, seen)
+							durs, ad = append(durs, d2...), ad || a2
+						}
+					}
+				}
+			}
+			return durs, ad
+		}
+		allDurs, _ := adds(exp, 0, map[ssa.Value]bool{})
+		if len(allDurs) == 0 {
+			continue // expiry not computed from a duration here (e.g. passed through)
+		}
+		key := siteKey(p, call)
+		phi, isPhi := exp.(*ssa.Phi)
+		if !isPhi {
+			_, ad := adds(exp, 0, map[ssa.Value]bool{})
+			st := f.StateAt(call)
+			pos := false
+			for _, d := range allDurs {
+				if st.Has(Atom("v:lb0:" + canon(d))) {
+					pos = true
+				}
+			}
+			r.table(p, rule, key, p.instrPos(call), !(ad && pos) , "single expiry value; AddDate on a path where the duration is known positive")
+			continue
+		}
+		okAll, detail := true, ""
+		checked := 0
+		for i, e := range phi.Edges {
+			pred := phi.Block().Preds[i]
+			st, reached := f.edgeSt[[2]*ssa.BasicBlock{pred, phi.Block()}]
+			if !reached {
+				continue
+			}
+			st = f.close(st)
+			positive := false
+			for _, d := range allDurs {
+				if st.Has(Atom("v:lb0:" + canon(d))) {
+					positive = true
+				}
+			}
+			if !positive {
+				continue
+			}
+			checked++
+			durs, ad := adds(e, 0, map[ssa.Value]bool{})
+			if ad || len(durs) == 0 {
+				okAll = false
+				detail = fmt.Sprintf("on the edge where the duration is positive the expiry is not plain Now().Add(duration) (AddDate in slice=%v, Add of duration=%v)", ad, len(durs) > 0)
+			}
+		}
+		if checked == 0 {
+			okAll, detail = false, "no incoming edge of the expiry value is known to carry a positive duration: undecided"
+		}
+		r.table(p, rule, key, p.instrPos(call), okAll, detail)
+	}
 }
